@@ -510,11 +510,15 @@ if kind == 'quantity':
     o = eval(m, {{'Decimal': Decimal}}) * obj(lab)
 else:
     o = obj(label)
+labels = lambda x: (getattr(x, 'names', None), getattr(x, 'symbols', None), getattr(x, 'name', None), getattr(x, 'symbol', None))
+before = labels(o)
 try:
     r = f(o)
 except Exception as e:
     print('REPRODUCED:', tname, 'of', repr(o), 'raised', type(e).__name__, e); sys.exit(1)
 print(repr(o), '->', repr(r))
+if kind != 'quantity' and (labels(o) != before or labels(r) != before):
+    print('REPRODUCED: the round trip changed the names / symbols:', before, '->', labels(o), labels(r)); sys.exit(1)
 ok = (r is o) if kind != 'quantity' else (r == o and type(r.magnitude) is type(o.magnitude)
                                           and (r.unit is o.unit or tname.startswith('json')))
 if not ok:
